@@ -106,7 +106,12 @@ class C14(vlib.Check):
             case = {"t": "entry", "ref": ref, "nconf": nconf, "first": first, "opts": o, "entry": entry, "name": name}
             if entry == "save":
                 case["ext"] = rng.choice(EXTS)
-                case["all_iters"] = rng.random() < 0.4
+                case["all_iters"] = rng.random() < 0.5
+                if case["all_iters"] and o["level"] not in (-1, None, 0) and rng.random() < 0.6:
+                    # the output directories already hold this molecule's files for *some* of the levels, left by an earlier
+                    # (shorter, fewer-conformer) or killed run: not all are there, so the molecule is not skipped
+                    case["prior"] = {"level": rng.randrange(0, o["level"]), "first": 1, "truncate": rng.random() < 0.3}
+                    self.count("save:partial-earlier-output")
             self.count("entry:" + entry)
             yield case
         for nm in SUFFIX_NAMES + [x for x in NAMES if x]:
@@ -149,6 +154,13 @@ class C14(vlib.Check):
         if e == "save":
             base = os.path.join(self.tmp(), "out%d_" % (id(case) % 99999))
             try:
+                if case.get("prior"):
+                    pr = dict(params, level=case["prior"]["level"], first=case["prior"]["first"])
+                    FG.fprints_dict_from_mol(mol, save=True, out_dir_base=base, out_ext=case["ext"], all_iters=True, **pr)
+                    if case["prior"]["truncate"]:
+                        for root in [x for x in os.listdir(self.tmp()) if x.startswith(os.path.basename(base))][:1]:
+                            for fn in os.listdir(os.path.join(self.tmp(), root)):
+                                fpm.savez(os.path.join(self.tmp(), root, fn))      # a file holding no fingerprint (what a killed run leaves)
                 d = FG.fprints_dict_from_mol(mol, save=True, out_dir_base=base, out_ext=case["ext"], all_iters=case["all_iters"], **params)
                 files = {}
                 for root in sorted(x for x in os.listdir(self.tmp()) if x.startswith(os.path.basename(base))):
